@@ -182,6 +182,7 @@ func c03verify(c *Ctx, rule, fnName, digestFn, payloadField string, isHeartbeat 
 					if l == nil {
 						return false
 					}
+					l = ft.R(l) // the floor test may live in a helper taking (prefix, payload)
 					if u, ok := l.(*ssa.UnOp); ok {
 						if g, ok := u.X.(*ssa.Global); ok && g == digestPrefixGlobal(dg) {
 							okPrefix = true
